@@ -130,6 +130,9 @@ type run struct {
 	docs  map[int]doc
 	fails *[]lib.OracleFail
 	trace []string
+
+	bad     []store.Stream // watchers with a malformed filter that Watch accepted
+	cancels []context.CancelFunc
 }
 
 func (r *run) op(line, out string) {
@@ -182,6 +185,29 @@ func oneCase(c *lib.Ctx, rng *lib.RNG, sc *lib.Script, fails *[]lib.OracleFail) 
 		switch rng.Weighted([]int{3, 6, 2, 4, 3, 5, 2, 1}) {
 		case 0: // watch
 			if len(r.ws) >= 4 {
+				continue
+			}
+			if rng.Chance(1, 8) {
+				// A watcher whose filter is malformed (unsupported operator, at the top or under a field, nested in
+				// $or). Whether Watch refuses it or registers a watcher that can never match is not what the
+				// statement fixes; what it fixes is that every later mutation still succeeds or fails on its own
+				// merits and is announced to the other watchers – the outcome oracles below see to that (repo
+				// 7f54b88: such a watcher made every later Insert/Update/Delete return an error after it had
+				// taken effect). Not a model operation.
+				bad := lib.Pick(rng, []any{
+					map[string]any{"k": map[string]any{"$foo": 1}},
+					map[string]any{"$foo": 1},
+					map[string]any{"$or": []any{map[string]any{"k": 1}, map[string]any{"n": map[string]any{"$regex": "x"}}}},
+					map[string]any{"n": map[string]any{"$gt": 1, "$bar": 2}},
+				})
+				bctx, bcancel := context.WithCancel(ctx)
+				if s, err := r.st.Watch(bctx, bad); err == nil {
+					r.bad = append(r.bad, s)
+					c.Hit("op-watch-malformed-accepted")
+				} else {
+					c.Hit("op-watch-malformed-refused")
+				}
+				r.cancels = append(r.cancels, bcancel)
 				continue
 			}
 			f := wfilter{kind: rng.Intn(5), v: rng.Intn(3)}
@@ -475,6 +501,12 @@ func oneCase(c *lib.Ctx, rng *lib.RNG, sc *lib.Script, fails *[]lib.OracleFail) 
 			r.op(fmt.Sprintf("next %d", w.id), fmt.Sprintf("ev %d %d", e.id, e.op))
 		}
 		_ = w.strm.Close(ctx)
+	}
+	for _, b := range r.bad {
+		_ = b.Close(ctx)
+	}
+	for _, cf := range r.cancels {
+		cf()
 	}
 	if len(r.ws) > 0 && len(kinds) >= 3 {
 		key = strings.Join(r.trace, ";")
